@@ -152,6 +152,11 @@ func (p *Prog) ShadowedResults(prefixes ...string) []Shadowed {
 						if _, isVar := outer.(*types.Var); !isVar {
 							continue
 						}
+						// a logger enriched for the block (`log := log.With()….Logger()`): the narrower logger is meant to end
+						// with the block, and a logger carries nothing that a result depends on
+						if strings.HasSuffix(strings.TrimPrefix(inner.Type().String(), "*"), "zerolog.Logger") {
+							continue
+						}
 						if inlinedAt(inner.Pos()) != inlinedAt(outer.Pos()) || strings.HasPrefix(id.Name, "__vn") {
 							continue
 						}
